@@ -1,10 +1,14 @@
 /* stubmod.c - stub iauthd module for C20 (module load / post-init / unload order).
  *
- * Compiled in four variants (ctx.build.stubmod(variant)): with all three entry points, without
- * module_post_init (-DNO_POSTINIT), without module_destructor (-DNO_DTOR), without both -- the two
- * hooks are optional in the real project and src/module.c has its own paths for modules that
- * lack them.  Each variant is COPIED once per module name (m1 ... m6), so that every copy has
- * its own inode, statics and dlopen handle.  The daemon under test is the real iauthd-c; the
+ * Compiled in eight variants (ctx.build.stubmod(variant)): with all three entry points, without
+ * module_post_init (-DNO_POSTINIT), without module_destructor (-DNO_DTOR), without
+ * module_constructor (-DNO_CTOR), and every combination -- all three entry points are optional
+ * in the real project and src/module.c has its own paths for modules that lack them.  A module
+ * without a constructor cannot call module_depends(): it declares nothing (a "plain library of
+ * helper functions"), writes no ctor-begin / ctor-end event, and learns its own name from the
+ * file it was loaded from (dladdr) instead of from the constructor's argument.  Each variant is
+ * COPIED once per module name (m1 ... m6), so that every copy has its own inode, statics and
+ * dlopen handle.  The daemon under test is the real iauthd-c; the
  * subject is src/module.c.  Nothing here judges anything: the stub only declares what its
  * dependency file says and records that its entry points were called.
  *
@@ -19,9 +23,11 @@
  *                      {"e":"ctor-begin","m":"m1"}  {"e":"ctor-end","m":"m1"}
  *                      {"e":"post-init","m":"m1"}   {"e":"dtor","m":"m1"}
  *                      {"e":"running"}
- *   VERIF_MODSTOP  if set: the first constructor of the process arms a zero-delay libevent timer
- *                  (from the constructor, because a case may have no module with a post-init;
- *                  main() creates ev_base before it loads any module).
+ *   VERIF_MODSTOP  if set: the first stub of the process that gets control arms a zero-delay
+ *                  libevent timer: a module_constructor, or -- in the variants without one --
+ *                  the shared object's ELF constructor, which dlopen() runs (a case may have no
+ *                  module with a post-init, and its first-loaded or only module may have no
+ *                  module_constructor; main() creates ev_base before it loads any module).
  *                  Its callback can only run inside main()'s event_base_dispatch(), i.e. after
  *                  start-up has completed and the signal handlers are installed; it logs
  *                  "running" and sends the daemon its own documented clean-stop signal
@@ -29,6 +35,10 @@
  *                  run forever) shuts down through the normal exit path and runs the
  *                  destructors.
  */
+#ifndef _GNU_SOURCE
+#define _GNU_SOURCE
+#endif
+#include <dlfcn.h>
 #include <fcntl.h>
 #include <signal.h>
 #include <stdio.h>
@@ -74,6 +84,16 @@ static void running_cb(evutil_socket_t fd, short what, void *arg)
     kill(getpid(), SIGHUP);
 }
 
+static void arm_stop(void)
+{
+    if (getenv("VERIF_MODSTOP") && !getenv("VERIF_MODSTOP_ARMED")) {
+        struct timeval tv = { 0, 0 };
+        setenv("VERIF_MODSTOP_ARMED", "1", 1);      /* process-wide: the copies share no statics */
+        event_base_once(ev_base, -1, EV_TIMEOUT, running_cb, NULL, &tv);
+    }
+}
+
+#ifndef NO_CTOR
 __attribute__((visibility("default"))) void module_constructor(const char *name)
 {
     FILE *f;
@@ -81,11 +101,7 @@ __attribute__((visibility("default"))) void module_constructor(const char *name)
 
     strncpy(self_name, name, sizeof(self_name) - 1);
     ev("ctor-begin", name);
-    if (getenv("VERIF_MODSTOP") && !getenv("VERIF_MODSTOP_ARMED")) {
-        struct timeval tv = { 0, 0 };
-        setenv("VERIF_MODSTOP_ARMED", "1", 1);      /* process-wide: the copies share no statics */
-        event_base_once(ev_base, -1, EV_TIMEOUT, running_cb, NULL, &tv);
-    }
+    arm_stop();
     f = fopen(getenv("VERIF_MODDEPS") ? getenv("VERIF_MODDEPS") : "/nonexistent", "r");
     while (f && fgets(line, sizeof line, f)) {
         char *c = strchr(line, ':'), *sv, *t;
@@ -109,6 +125,31 @@ __attribute__((visibility("default"))) void module_constructor(const char *name)
         fclose(f);
     ev("ctor-end", name);
 }
+#else
+/* No module_constructor: nothing of this module runs while the loader loads it, except what
+ * dlopen() itself runs.  The ELF constructor below is not an entry point of the loader's
+ * protocol and writes no event; it only (a) learns which module this copy is -- the file name
+ * it was loaded from, "<dir>/m3.so" or the pool file "m3.<variant>.so" behind that link, up
+ * to the first dot -- so that post-init / dtor events can name it, and (b) arms the stop timer
+ * when no other stub has done so yet. */
+__attribute__((constructor)) static void stub_loaded(void)
+{
+    Dl_info info;
+    const char *b;
+    size_t n;
+
+    if (dladdr((void *)&stub_loaded, &info) && info.dli_fname) {
+        b = strrchr(info.dli_fname, '/');
+        b = b ? b + 1 : info.dli_fname;
+        n = strcspn(b, ".");
+        if (n >= sizeof self_name)
+            n = sizeof self_name - 1;
+        memcpy(self_name, b, n);
+        self_name[n] = 0;
+    }
+    arm_stop();
+}
+#endif
 
 #ifndef NO_POSTINIT
 __attribute__((visibility("default"))) void module_post_init(struct module *self)
